@@ -47,7 +47,7 @@ P = {
                 runs=[dict(cmd="c26", quick=80, thorough=8000, shards_thorough=8)], vm_k=4),
     "C27": dict(theorems=["Properties/C27.v"],
                 runs=[dict(cmd="c27", quick=80, thorough=8000, shards_thorough=8),
-                      dict(cmd="c27node", quick=10, thorough=400, shards_thorough=8, model=False)], vm_k=4),
+                      dict(cmd="c27node", quick=10, thorough=400, shards_thorough=8)], vm_k=4),
     "C16": dict(theorems=["Properties/C16.v"],
                 runs=[dict(cmd="c16", quick=6, thorough=400, shards_thorough=8)], vm_k=4),
     "C17": dict(theorems=["Properties/C17.v"],
@@ -165,7 +165,7 @@ META = {
     "C26": dict(text="REFUTED for the code, proved: a transaction failing inside Run is charged the failure fee, keeps its nonce, and is charged again on re-delivery (C26_refuted, witness evaluated in Coq; reproduced on the node: KNOWN FINDING c26-failed-redelivery). Proved partial results: after a successful delivery every re-delivery is rejected with the state untouched; gate rejections never charge; one failing delivery costs at most the failure fee and at most the balance. " + LM + "The harness re-delivers earlier bytes (accepted and failed) and watches the payer.",
                 note=LN + "Repair would need replay protection keyed by tx hash (new consensus state); C03 forbids advancing the nonce on failure: recorded as known finding, not patched.",
                 technique="Coq proof (refutation witness + partial theorems) + differential correspondence on the real node + re-delivery monitor"),
-    "C27": dict(text="Theorems: an accepted transaction paid in base coin adds gas price x (type price + (payload+service bytes) x byte price) to the reward pool, less the ticker fee of a coin creation which goes from the reward pool to the zero address; a rejected one adds at most the failed-transaction price; type prices per table entry (Multisend base + delta x (n-1), ticker by length). " + LM + "Monitor: reward-pool growth per accepted transaction against the price table. Node-level route monitor (c27node): on histories with bancor coins that also have a pool to the base coin, for every accepted transaction paying its commission in such a coin the charged amount and the tx.commission_conversion tag must be the cheaper of formula.CalculateSaleAmount on the pre-state reserve and the pool quote on a pre-state copy of the pool (tie: pool).",
+    "C27": dict(text="Theorems: an accepted transaction paid in base coin adds gas price x (type price + (payload+service bytes) x byte price) to the reward pool, less the ticker fee of a coin creation which goes from the reward pool to the zero address; a rejected one adds at most the failed-transaction price; type prices per table entry (Multisend base + delta x (n-1), ticker by length). " + LM + "Monitor: reward-pool growth per accepted transaction against the price table. Route choice (Model/FeeRoute.v = CalculateCommission; C27_cheaper_route, C27_route_is_an_available_quote, C27_no_route_refused), tied by model 22 and a node-level route monitor (c27node): on histories with bancor coins that also have a pool to the base coin, for every accepted transaction paying its commission in such a coin the charged amount and the tx.commission_conversion tag must be the cheaper of formula.CalculateSaleAmount on the pre-state reserve and the pool quote on a pre-state copy of the pool (tie: pool).",
                 note=LN + "Custom-coin commission (pool route vs reserve route) and a price table denominated in a custom coin are exercised at node level only (c01/c07 histories), not modelled.",
                 technique="Coq proof (effect-list algebra) + differential correspondence on the real node + price-table monitor"),
     "C16": dict(text="Theorems for arbitrary positive periods (both chain ids positive; testnet values regenerated from the source incl. the LockStake period). Every Unbond, MoveStake, Lock, candidate removal and byzantine unbonding creates funds of exactly the leaving value (byzantine: floor 95 %), due at exactly h+UnbondPeriod, h+MovePeriod or the Lock's due block. No step other than the BeginBlock of a fund's own due height removes or pays it. Along histories with consecutive heights no fund is ever overdue, each is paid by exactly that BeginBlock, and only a byzantine slash may lower its value. MoveStake is accepted only towards an existing candidate; a matured move reaches its existing target candidate, or, if the target was removed in flight, is unbonded for one more unbond period; it is never credited to a balance at its maturity; no step panics. Unbond is rejected with 416 while LockStakeUntilBlock > block, changing nothing but the failed-transaction fee. The model is run against the real node per transaction and per block (codes, created funds, matured funds and what happened to each, staked totals).",
